@@ -45,12 +45,9 @@ monitor c cache.lock
   invariant newest_is_entry: isNode(c, addr(c, "usage").prev)
   // without LRU nothing is ever linked
   invariant no_lru_empty_list: !c.conf.EnableLRU ==> addr(c, "usage").next == addr(c, "usage") && addr(c, "usage").prev == addr(c, "usage")
-  // one step further along the list: assumed (the full "every node's
-  // neighbours are nodes" needs reachability; its quantified form sends the
-  // solvers into a matching loop)
-  assume_invariant sentinel_second_level: isNode(c, addr(c, "usage").next.next) && isNode(c, addr(c, "usage").prev.prev)
   invariant items_keyed: forall k: haskey(c.items, k) ==> mapget(c.items, k) != nil && strid(mapget(c.items, k).key) == k
-  assume_invariant lru_items_linked: c.conf.EnableLRU ==> (forall k: haskey(c.items, k) ==> wfNode(addr(mapget(c.items, k), "used")))
+  invariant lru_items_linked: c.conf.EnableLRU ==> (forall k: haskey(c.items, k) ==> wfNode(addr(mapget(c.items, k), "used")) &&
+    isNode(c, addr(mapget(c.items, k), "used").next) && isNode(c, addr(mapget(c.items, k), "used").prev))
 
 // Postconditions are stated for single-goroutine histories (property C09):
 // the state found at Lock is the state at entry.  k ranges over key
@@ -155,4 +152,10 @@ func (*cache).Set
       (forall k: (haskey(c.items, k) <==> old(haskey(c.items, k))) && mapget(c.items, k) == old(mapget(c.items, k)))
     invariant seq_no_callback_unless_evicting: !(old(c.size) + addSize > c.conf.MaxSize || old(len(c.items)) == c.conf.MaxCount) ==> cbcalls() == 0
     assume_invariant list_inv: monitor_assumed(c, "lock")
+    // when room is needed there is something to evict (follows from
+    // Size == sum of the live lengths and "every entry is in the list",
+    // neither of which is expressible here)
+    assume_invariant victim_exists: c.conf.EnableLRU ==> addr(c, "usage").next != addr(c, "usage") ||
+      !(((c.size + addSize < 18446744073709551616) ? c.size + addSize : c.size + addSize - 18446744073709551616) > c.conf.MaxSize ||
+        len(c.items) == c.conf.MaxCount)
 @*/
